@@ -24,7 +24,7 @@ fn spec() -> Spec {
             Kind { name: "trajectory", quick: 2_000, thorough: 60_000, serial: false },
             Kind { name: "with_shape", quick: 6_000, thorough: 300_000, serial: false },
         ],
-        rule: "single_call: non-degenerate robot (dof 5/6) x pose (FK of q / random SE(3)) x previous in [-2pi,2pi]^6 (generating, shifted by whole turns, uniform) or the CONSTRAINT_CENTERED sentinel x {no limits, wide limits with weight 0 / 1 / random}; inverse_continuing and inverse_continuing_5dof: nearest 2pi-representative per angle, non-decreasing documented cost, superset of plain inverse (same solver), previous-realises-pose => first answer. trajectory: dense joint-space trajectories (sums of sinusoids inside [-2pi,2pi], step <= 0.03 rad/joint, 200..1500 steps, truncated where elbow/shoulder margins < 0.1); each call's previous is the preceding first answer; first answer must track q(t) and its increments. with_shape: the same clauses (nearest representative, cost order, free legal previous first) through KinematicsWithShape on synthetic cells with obstacles on other IK branches (its collision filter runs on the rayon pool). non-trivial = call returned >= 2 answers (single_call) / trajectory of >= 50 tracked steps; distinct = hash(robot, pose/trajectory seed, previous)",
+        rule: "single_call: non-degenerate robot (dof 5/6) x pose (FK of q / random SE(3)) x previous in [-2pi,2pi]^6 (generating, shifted by whole turns, uniform) or the CONSTRAINT_CENTERED sentinel x {no limits, wide limits with weight 0 / 1 / random}; inverse_continuing and inverse_continuing_5dof: nearest 2pi-representative per angle, non-decreasing documented cost, superset of plain inverse (same solver), previous-realises-pose => first answer. trajectory: dense joint-space trajectories (sums of sinusoids inside [-2pi,2pi], step <= 0.03 rad/joint, 200..1500 steps, truncated where elbow/shoulder margins < 0.1); each call's previous is the preceding first answer; first answer must track q(t) and its increments. with_shape: the same clauses (nearest representative, cost order, free legal previous first) through KinematicsWithShape on synthetic cells with obstacles on other IK branches (its collision filter runs on the rayon pool). non-trivial = call returned >= 2 answers (single_call) / trajectory of >= 50 tracked steps; distinct = hash(robot, pose/trajectory seed, previous) Workload additions: a quarter of the limit sets installed through update_range histories; wrap-around limit classes whose library centre lies up to 3pi; a joint a hair inside +-pi against a previous of exactly +-0.0; a fifth of the solvers behind Tool / Base / Frame stacks; kind with_shape = the same clauses through KinematicsWithShape (filter on the rayon pool) with obstacles on other IK branches.",
         assumptions: vec![
             "cost = (1-w)*sum|s-prev| + w*sum|s-centre|, w=0 without limits; prev := constraint centres (zeros without limits) for the sentinel",
             "ties: an angle exactly pi away from previous may take either representative (tolerance 1e-9)",
@@ -189,6 +189,33 @@ fn single(idx: u64, rng: &mut Rng, mon: &mut Mon) {
         if ordered && sols.len() >= 2 {
             mon.held();
             mon.count("ordered_lists");
+        }
+        // b2. near-ties: a previous vector almost exactly equidistant (L1) from two adjacent answers, nudged 2e-7 rad
+        // towards the one that came later; the list for THAT previous must again be ordered (tolerance 1e-9)
+        if !sentinel && w == 0.0 && sols.len() >= 2 && rng.bool(0.15) {
+            let k = rng.usize(sols.len() - 1);
+            let (a, b) = (sols[k], sols[k + 1]);
+            let mut mid: [f64; 6] = std::array::from_fn(|j| 0.5 * (a[j] + b[j]));
+            let jn = (0..6).max_by(|x, y| (a[*x] - b[*x]).abs().partial_cmp(&(a[*y] - b[*y]).abs()).unwrap()).unwrap();
+            mid[jn] += 2e-7 * (b[jn] - a[jn]).signum();
+            if mid.iter().all(|x| x.abs() <= 2.0 * PI) {
+                if let Ok(s2) = call(kin.as_ref(), e, &pose, &mid, 0.0) {
+                    mon.count("near_tie_previous_vectors");
+                    let mut fine = true;
+                    for i in 1..s2.len() {
+                        let c0 = cost(&s2[i - 1], &mid, &centres, 0.0);
+                        let c1 = cost(&s2[i], &mid, &centres, 0.0);
+                        if c0 > c1 + 1e-9 {
+                            fine = false;
+                            mon.violation(&format!("not-cost-ordered:near-tie:{}", cell), "with a previous vector almost equidistant from two answers the list is not in non-decreasing order of the distance to previous", detail("order-near-tie", json!({"previous_used": jf(&mid), "i": i, "cost_before": c0, "cost_after": c1, "answers": s2.iter().map(|s| jf(s)).collect::<Vec<_>>()})));
+                            break;
+                        }
+                    }
+                    if fine {
+                        mon.held();
+                    }
+                }
+            }
         }
         // c. superset of plain inverse (same solver)
         // (a dof-5 robot carries the caller's J6, which the limits also judge: compare with the plain
